@@ -1,4 +1,5 @@
 import SyneTune.Lemmas.HBStopping
+import SyneTune.Lemmas.RungLevels
 /-
 C03 — stopping-type asynchronous Hyperband decides by the documented quantile rule.
 Property theorems only; helper lemmas are in `Lemmas/Rung.lean`, `Lemmas/HBStopping.lean`.
@@ -276,6 +277,62 @@ theorem promote_quantiles_in_unit_interval (levels : List Nat) (maxT : Nat)
         · rw [div_lt_one (by linarith)]; exact h2
       · apply ih (fun x hx => hpos x (List.mem_cons_of_mem _ hx)) hinc.2
         simpa using hq
+
+/-- rung levels from `grace_period`, `reduction_factor ≥ 2` (`round(min_t · rf^k)` with Python's
+round-half-even, any rational factor such as 5/2): positive, strictly increasing, all `< max_t`. -/
+theorem rung_levels_rf (minT : Nat) (rf : Rat) (maxT : Nat) (hm : 1 ≤ minT) (hrf : 2 ≤ rf) :
+    (rungLevelsRF minT rf maxT).Pairwise (· < ·) ∧ ∀ l ∈ rungLevelsRF minT rf maxT, 0 < l ∧ l < maxT :=
+  rungLevelsRF_props minT rf maxT hm hrf
+
+theorem zipWith_rung_levels (levels : List Nat) (qs : List Rat) (h : qs.length = levels.length) :
+    (List.zipWith (fun l q => ({ level := l, q := q, data := [] } : Rung)) levels qs).map (·.level) = levels := by
+  induction levels generalizing qs with
+  | nil => simp
+  | cons l ls ih =>
+    cases qs with
+    | nil => simp at h
+    | cons q qs' => simp only [List.zipWith_cons_cons, List.map_cons]; rw [ih qs' (by simpa using h)]
+
+theorem promoteQuantiles_length (levels : List Nat) (maxT : Nat) :
+    (promoteQuantiles levels maxT).length = levels.length := by
+  unfold promoteQuantiles; simp; omega
+
+/-- **The hypotheses of the decision theorems hold for every constructed rung system**: for
+positive, strictly increasing levels below `max_t` (what `rung_levels_rf`, `rung_levels_inc`
+and the explicit-list assertions give), the system built by the bracket manager has strictly
+decreasing rung levels, empty well-formed rungs and promotion quantiles in (0,1). -/
+theorem constructed_system_wf (m : Mode) (levels : List Nat) (maxT : Nat)
+    (hpos : ∀ l ∈ levels, 0 < l) (hinc : (levels ++ [maxT]).Pairwise (· < ·)) :
+    RungsDecr (mkRungSys levels (promoteQuantiles levels maxT) maxT).rungs ∧
+    (∀ rg ∈ (mkRungSys levels (promoteQuantiles levels maxT) maxT).rungs, RungOK m rg ∧ 0 < rg.q ∧ rg.q < 1) := by
+  constructor
+  · unfold RungsDecr mkRungSys
+    simp only
+    rw [List.pairwise_reverse]
+    have hl := zipWith_rung_levels levels (promoteQuantiles levels maxT) (promoteQuantiles_length levels maxT)
+    have hp : levels.Pairwise (· < ·) := by
+      rw [List.pairwise_append] at hinc; exact hinc.1
+    rw [← hl, List.pairwise_map] at hp
+    exact hp
+  · intro rg hrg
+    refine ⟨init_ok m levels _ maxT rg hrg, ?_⟩
+    have hq := promote_quantiles_in_unit_interval levels maxT hpos hinc
+    unfold mkRungSys at hrg
+    simp only [List.mem_reverse] at hrg
+    have : rg.q ∈ promoteQuantiles levels maxT := by
+      generalize promoteQuantiles levels maxT = qs at hrg
+      clear hq hinc hpos
+      induction levels generalizing qs with
+      | nil => simp at hrg
+      | cons l ls ih =>
+        cases qs with
+        | nil => simp at hrg
+        | cons q qs' =>
+          simp only [List.zipWith_cons_cons, List.mem_cons] at hrg
+          rcases hrg with rfl | hrg
+          · simp
+          · exact List.mem_cons_of_mem _ (ih qs' hrg)
+    exact hq _ this
 
 /-! ### non-vacuity: concrete states meeting the hypotheses -/
 
